@@ -637,6 +637,11 @@ mod inner {
             }
         }
     }
+
+    #[cfg(kani)]
+    mod verif_kani_inner {
+        include!(concat!(env!("PACAK_BPAF_VERIF_DIR"), "/kani/args_inner.rs"));
+    }
 }
 
 impl State {
@@ -946,4 +951,9 @@ mod tests {
         let is_ambig = matches!(a.peek(), Some(Arg::Word(_)));
         assert!(is_ambig);
     }
+}
+
+#[cfg(kani)]
+mod verif_kani {
+    include!(concat!(env!("PACAK_BPAF_VERIF_DIR"), "/kani/args.rs"));
 }
